@@ -59,6 +59,11 @@ inductive Instr
   | iterBegin (d : Dict)                    -- `iter(d.values())`
   | iterNext (d : Dict)                     -- `next(it)`; exhaustion leaves the loop
   | loopEnd (d : Dict)                      -- back edge to the matching `iterNext`
+  | snapshot (d : Dict)                     -- `xs = list(d.values())`: ONE action (a single C call
+                                            -- under the GIL); the thread then iterates its own list
+  | snapNext (d : Dict)                     -- `next` over that list; exhaustion leaves the loop;
+                                            -- never looks at `d` again, never raises
+  | snapEnd (d : Dict)                      -- back edge to the matching `snapNext`
   | yield (throwAt : Nat)                   -- generator hands a document to its consumer; the
                                             -- consumer throws into it at document no. `throwAt`
   | collNext                                -- `for exp_id in expired_ids:` (exit when none left)
@@ -90,7 +95,9 @@ abbrev Code := List TInstr
 inductive Fault
   | expiryKeyError     -- a nested `del self[exp_id]` of an id that is gone (the code before the
                        -- fix of store.py `_expire_documents`; unreachable for the present discipline)
-  | ttlChangedSize     -- "dictionary changed size during iteration" over `_ttl_indexes`
+  | ttlChangedSize     -- "dictionary changed size during iteration" over `_ttl_indexes` (the code
+                       -- before `_remove_expired_documents` iterated over a snapshot; unreachable
+                       -- for the present discipline, reachable for `unrepairedDiscipline`)
   | docsMutated        -- "OrderedDict mutated during iteration" over `_documents`
   | lockError          -- release of an unlocked / foreign lock
   deriving DecidableEq, Repr, Inhabited, Hashable
@@ -117,7 +124,8 @@ structure Shared where
 structure Thread where
   pc : Nat
   dIt : Option (Nat × Nat × Bool)   -- `_documents` iterator: consumed, size at creation, dirty
-  tIt : Option (Nat × Nat)          -- `_ttl_indexes` iterator: consumed, size at creation
+  tIt : Option (Nat × Nat)          -- `_ttl_indexes` iterator: consumed, size at creation;
+                                    -- or the iterator of a snapshot list of its values
   coll : List Nat                   -- `expired_ids` still to delete
   fault : Option Fault
   deriving DecidableEq, Repr, Inhabited, Hashable
@@ -319,6 +327,25 @@ def dictOp (cfg : Cfg) (code : Code) (sh : Shared) (th : Thread) (ins : Instr) :
     | .indexes => none
   | .loopEnd d =>
     some { sh := sh, th := th.goto (findBack (fun x => x.op == .iterNext d) code th.pc code.length) }
+  | .snapshot d =>
+    match d with
+    | .ttl => some { sh := sh, th := { th.next with tIt := some (0, sh.ttl.length) } }
+    | .docs => none         -- not used by any store method; unmodelled → stuck
+    | .indexes => none
+  | .snapNext d =>
+    let exit := findFrom (fun x => x.op == .snapEnd d) code (th.pc + 1) 0 + 1
+    match d with
+    | .ttl =>
+      -- listiter_next over the thread's own list: no look at `_ttl_indexes`
+      match th.tIt with
+      | some (pos, size) =>
+        if pos ≥ size then some { sh := sh, th := { th with pc := exit, tIt := none } }
+        else some { sh := sh, th := { th.next with tIt := some (pos + 1, size) } }
+      | none => some { sh := sh, th := th.goto exit }
+    | .docs => none
+    | .indexes => none
+  | .snapEnd d =>
+    some { sh := sh, th := th.goto (findBack (fun x => x.op == .snapNext d) code th.pc code.length) }
   | .yield throwAt =>
     match th.dIt with
     | some (pos, _, _) =>
@@ -445,6 +472,7 @@ inductive DStep
                                  -- key: the method's argument, or (`ck`) the current expired id
   | collect                      -- whole iteration over `_documents` with no switch point inside
   | forBegin (d : Dict) | forEnd (d : Dict)
+  | snapBegin (d : Dict) | snapEnd (d : Dict)   -- `for x in list(d.values()):` … end of its body
   | yield
   | collBegin | collEnd          -- `for exp_id in expired_ids:`
   | call (m : Method) (collKey : Bool)   -- nested store-method call (key = current expired id?)
@@ -505,6 +533,9 @@ def compileSteps (P : Protocol) (D : Discipline) :
       | .forBegin d => (ctx, code ++ [⟨ctxPhase ctx, false, .iterBegin d⟩,
                                       ⟨ctxPhase ctx, false, .iterNext d⟩])
       | .forEnd d => one (.loopEnd d)
+      | .snapBegin d => (ctx, code ++ [⟨ctxPhase ctx, false, .snapshot d⟩,
+                                       ⟨ctxPhase ctx, false, .snapNext d⟩])
+      | .snapEnd d => one (.snapEnd d)
       | .yield => one (.yield thr)
       | .collBegin => one .collNext
       | .collEnd => one .collEnd
@@ -535,7 +566,7 @@ def mkCfg (P : Protocol) (D : Discipline) (sc : Scenario) : Cfg :=
   { reentrant := P.reentrant, codes := sc.progs.map (compile P D), expired := sc.expired,
     docs0 := sc.docs0, idx0 := sc.idx0, ttl0 := sc.ttl0 }
 
-/-! ## Hand-written reference copies (thread.py:39-95, store.py:87-166) -/
+/-! ## Hand-written reference copies (thread.py:39-95, store.py:89-177) -/
 
 open LockId Ctr in
 def referenceProtocol : Protocol :=
@@ -563,9 +594,18 @@ def referenceDiscipline : Discipline :=
     (isEmpty, [.call removeExpired false, .read docs]),
     (expireDocuments, [.enter false, .collect, .leave false, .collBegin, .enter true,
                        .popItem docs true, .leave true, .collEnd]),
-    (removeExpired, [.forBegin ttl, .call expireDocuments false, .forEnd ttl]),
+    (removeExpired, [.snapBegin ttl, .call expireDocuments false, .snapEnd ttl]),
     (createIndex, [.setItem indexes false]),
     (createIndexTtl, [.setItem indexes false, .setItem ttl false]),
     (dropIndex, [.call removeExpired false, .delItem indexes false, .popItem ttl false]) ]
+
+def Discipline.withBody (D : Discipline) (m : Method) (body : List DStep) : Discipline :=
+  D.map fun e => if e.1 == m then (m, body) else e
+
+/-- the discipline of store.py BEFORE the repair of `ttl-index-race`: `_remove_expired_documents`
+    iterated the live `_ttl_indexes` dict (`for index in self._ttl_indexes.values():`) -/
+def unrepairedDiscipline : Discipline :=
+  referenceDiscipline.withBody .removeExpired
+    [.forBegin .ttl, .call .expireDocuments false, .forEnd .ttl]
 
 end MongoModel.RWLock
